@@ -282,7 +282,11 @@ func (e *msgpackEncDriver[T]) writeNilMap() {
 }
 
 func (e *msgpackEncDriver[T]) writeNilBytes() {
-	e.writeNilOr(mpFixStrMin)
+	if e.h.NilCollectionToZeroLength {
+		e.EncodeStringBytesRaw(zeroByteSlice) // zero-length bytes: bin8 with WriteExt, else (legacy) raw
+	} else {
+		e.w.writen1(mpNil)
+	}
 }
 
 func (e *msgpackEncDriver[T]) writeContainerLen(ct msgpackContainerType, l int) {
